@@ -267,11 +267,43 @@ func InventoryObject(univ Universe, keys []int, withData bool) *unstructured.Uns
 	return o
 }
 
-func keepAnnotation(id int) (string, string) {
-	if id%2 == 0 {
-		return common.OnRemoveAnnotation, common.OnRemoveKeep
+// keepVariant is one spelling of the abstract attribute "keep": the lifecycle
+// annotations an object carries when keep = true and when keep = false. A
+// variant is fixed per (history, identifier) for live objects, last-applied
+// contents and manifests alike, and the keys of `off` never carry a preventing
+// value in `on`: kubectl's three-way merge works per annotation key, and only
+// under these two conditions does it act on the pair of annotations as it
+// would on one boolean (Pipeline.v `merged`: keep' = l_keep || (c_keep && not last_keep)).
+type keepVariant struct{ on, off map[string]string }
+
+var keepVariants = []keepVariant{
+	{}, // 0: by parity of the id: variant 1 (even) or 2 (odd)
+	{on: map[string]string{common.OnRemoveAnnotation: common.OnRemoveKeep}},
+	{on: map[string]string{common.LifecycleDeleteAnnotation: common.PreventDeletion}},
+	// both annotations; only the second one prevents
+	{on: map[string]string{common.OnRemoveAnnotation: "delete", common.LifecycleDeleteAnnotation: common.PreventDeletion}},
+	{on: map[string]string{common.OnRemoveAnnotation: "", common.LifecycleDeleteAnnotation: common.PreventDeletion},
+		off: map[string]string{common.OnRemoveAnnotation: ""}},
+	{on: map[string]string{common.OnRemoveAnnotation: "delete", common.LifecycleDeleteAnnotation: common.PreventDeletion},
+		off: map[string]string{common.OnRemoveAnnotation: "delete"}},
+	// both annotations; both / only the first one prevent
+	{on: map[string]string{common.OnRemoveAnnotation: common.OnRemoveKeep, common.LifecycleDeleteAnnotation: common.PreventDeletion}},
+	{on: map[string]string{common.OnRemoveAnnotation: common.OnRemoveKeep, common.LifecycleDeleteAnnotation: "x"},
+		off: map[string]string{common.LifecycleDeleteAnnotation: "x"}},
+	// one annotation prevents; without keep the other one is present with a value that does not
+	{on: map[string]string{common.OnRemoveAnnotation: common.OnRemoveKeep}, off: map[string]string{common.LifecycleDeleteAnnotation: "x"}},
+	{on: map[string]string{common.LifecycleDeleteAnnotation: common.PreventDeletion}, off: map[string]string{common.OnRemoveAnnotation: "delete"}},
+}
+
+func keepAnnotations(e UEntry, id int, keep bool) map[string]string {
+	v := e.KeepVar
+	if v <= 0 || v >= len(keepVariants) {
+		v = 1 + id%2
 	}
-	return common.LifecycleDeleteAnnotation, common.PreventDeletion
+	if keep {
+		return keepVariants[v].on
+	}
+	return keepVariants[v].off
 }
 
 func depsAnnotation(univ Universe, deps []int, bad bool) (string, bool) {
@@ -303,8 +335,7 @@ func content(univ Universe, id int, deps []int, bad, keep bool, ver int, owner O
 	if s, ok := depsAnnotation(univ, deps, bad); ok {
 		ann[dependson.Annotation] = s
 	}
-	if keep {
-		k, v := keepAnnotation(id)
+	for k, v := range keepAnnotations(e, id, keep) {
 		ann[k] = v
 	}
 	switch owner {
